@@ -56,7 +56,17 @@ func newFakeBottom(block bool) *fakeBottom {
 
 func (f *fakeBottom) ReadFrom(b []byte) (int, net.Addr, error) {
 	select {
+	case <-f.closed:
+		return 0, nil, net.ErrClosed
+	default:
+	}
+	select {
 	case p := <-f.rx:
+		select {
+		case <-f.closed: // closed wins over queued data (a plain select would choose at random)
+			return 0, nil, net.ErrClosed
+		default:
+		}
 		a, _ := net.ResolveUDPAddr("udp", p.src)
 
 		return copy(b, p.data), a, nil
